@@ -291,6 +291,14 @@ class Session:
 
         if self.be.close_on and self.be.close_on(text if text else ';', client):
             return finish('close', 'close')
+        if self.be.garbage:
+            out.append(b'\x00\xff\xff\xff\xf0garbage')
+            return finish('garbage', 'error')
+        if self.be.always_error:
+            out.append(W.ErrorResponse('XX000', 'this server answers everything with an error'))
+            if self.tx == 'T':
+                self.tx = 'E'
+            return finish('error', 'error')
         if text == '':
             out.append(W.msg(b'I'))
             return finish('empty')
@@ -497,6 +505,10 @@ class Backend(threading.Thread):
         self.close_on = None        # predicate(text, client) -> close the connection instead of answering
         self.fault_kind = 'up'
         self.scripts = []           # scripted replies: each a list of segments [(bytes, [chunk offsets])]
+        self.stall = False          # stop reading from established connections (TCP buffers fill up)
+        self.read_delay = 0.0       # seconds slept before every message read
+        self.always_error = False   # every statement is answered with an ErrorResponse
+        self.garbage = False        # every statement is answered with bytes that are not a PostgreSQL message
 
     # ---- control
     def set_mode(self, mode):
@@ -509,7 +521,30 @@ class Backend(threading.Thread):
         self.hang_on = None
         self.close_on = None
         self.mode = 'ok'
+        self.stall = False
+        self.read_delay = 0.0
+        self.always_error = False
+        self.garbage = False
         if kind == 'up':
+            return
+        if kind == 'stall':
+            self.stall = True
+            return
+        if kind == 'slow':
+            self.read_delay = 0.4
+            return
+        if kind == 'errors':
+            self.always_error = True
+            return
+        if kind == 'garbage':
+            self.garbage = True
+            return
+        if kind == 'close_mid':
+            self.close_on = lambda text, client: True
+            return
+        if kind == 'hang_startup':
+            self.hang_release = threading.Event()
+            self.mode = 'hang_startup'
             return
         if kind == 'refuse':
             self.mode = 'refuse'
@@ -656,6 +691,10 @@ class Backend(threading.Thread):
     def loop(self, s):
         c = s.sock
         while True:
+            while self.stall and not self.stopping:
+                time.sleep(0.02)
+            if self.read_delay:
+                time.sleep(self.read_delay)
             t, body = W.read_msg(c)
             if self.record_bytes:
                 s.log('be_read', data=t + struct.pack('!i', len(body) + 4) + body)
